@@ -3,7 +3,7 @@ import scopedom
 import usimrun
 
 OBS = 'ObsC07'
-LABELS = {'quick': 'until until_kids until_time'.split(), 'thorough': 'until until_kids until_time'.split()}
+LABELS = {'quick': 'until until_kids until_time until_conn'.split(), 'thorough': 'until until_kids until_time until_conn'.split()}
 
 
 def run(check):
